@@ -239,6 +239,72 @@ theorem c07_foreign_topic_never (c : SubCfg) (topic : Topic) :
     congr 2
     simp [brokerDeliver, hne]
 
+/-- What a subscription on `topic` can observe of a global schedule: its own steps and the publishes
+on its own topic. -/
+def visibleTo (topic : Topic) (as : List Act) : List Act :=
+  as.filter fun a => match a with
+    | .publish m => decide (m.topic = topic)
+    | _ => true
+
+/-- SEVERAL SUBSCRIPTIONS (one provider, one factory): each subscription is its own instance of the
+model, so a system of subscriptions is a product of independent instances. For the instance on
+`topic`, from ANY state and under ANY schedule, the run is the run over what is visible to it:
+publishes on other subscriptions' topics (and anything else foreign) can be removed, added or
+reordered among themselves without changing its state — handler invocations, queue, liveness.
+Consequently two global schedules that agree on what is visible to A give A the same result,
+whatever the traffic on B's topic. (The tie for this is the `pm` lines: 2–4 real subscriptions made
+from one FScopeProvider, compared per subscription with independent instances.) -/
+theorem c07_subscribers_independent (c : SubCfg) (topic : Topic) :
+    (∀ (as : List Act) (s : St), run c topic s as = run c topic s (visibleTo topic as)) ∧
+    (∀ (as bs : List Act) (s : St), visibleTo topic as = visibleTo topic bs →
+        run c topic s as = run c topic s bs) := by
+  have h1 : ∀ (as : List Act) (s : St), run c topic s as = run c topic s (visibleTo topic as) := by
+    intro as
+    induction as with
+    | nil => intro s; rfl
+    | cons a t ih =>
+      intro s
+      cases a with
+      | publish m =>
+        by_cases hm : m.topic = topic
+        · have : visibleTo topic (Act.publish m :: t) = Act.publish m :: visibleTo topic t := by
+            simp [visibleTo, hm]
+          rw [this]
+          simp only [run]
+          cases step c topic s (Act.publish m) with
+          | none => rfl
+          | some s1 => exact ih s1
+        · have : visibleTo topic (Act.publish m :: t) = visibleTo topic t := by
+            simp [visibleTo, hm]
+          rw [this]
+          simp only [run]
+          rw [(c07_foreign_topic_never c topic).1 s m hm]
+          exact ih s
+      | work =>
+        have : visibleTo topic (Act.work :: t) = Act.work :: visibleTo topic t := by simp [visibleTo]
+        rw [this]
+        simp only [run]
+        cases step c topic s Act.work with
+        | none => rfl
+        | some s1 => exact ih s1
+      | unsubscribe =>
+        have : visibleTo topic (Act.unsubscribe :: t) = Act.unsubscribe :: visibleTo topic t := by simp [visibleTo]
+        rw [this]
+        simp only [run]
+        cases step c topic s Act.unsubscribe with
+        | none => rfl
+        | some s1 => exact ih s1
+      | abandon =>
+        have : visibleTo topic (Act.abandon :: t) = Act.abandon :: visibleTo topic t := by simp [visibleTo]
+        rw [this]
+        simp only [run]
+        cases step c topic s Act.abandon with
+        | none => rfl
+        | some s1 => exact ih s1
+  refine ⟨h1, ?_⟩
+  intro as bs s h
+  rw [h1 as s, h1 bs s, h]
+
 /-- EVERY schedule (publishes, worker steps, Unsubscribe, workers quitting — in any order, any
 number of each): the handler invocation list is a sub-list (same order, nothing twice, nothing
 invented) of the deliveries owed for what was published on the topic BEFORE the first
